@@ -109,7 +109,10 @@ ConstantArithmetic ==
   \* nothing to fold
   \cup {Case("fold.not", "fold", "", cx, t, <<>>, "refuse", "exact", <<>>, NoFP)
       : cx \in {"top", "addL", "eqR"}, t \in {Bin("add", C(2), Bin("mul", C(3), X)), Bin("sub", Bin("mul", C(3), X), C(2)), Bin("mul", C(2), Bin("pow", X, C(2))),
-                                            Bin("sub", X, C(2)), Bin("add", X, Y), Bin("mul", X, Y)}}
+                                            Bin("sub", X, C(2)), Bin("add", X, Y), Bin("mul", X, Y),
+                                            \* a chain whose inner group is of the other operator connects no two constants: 5 + (3x + y), 5 * ((3 + x) * y)
+                                            Bin("add", C(5), Bin("add", Bin("mul", C(3), X), Y)), Bin("mul", C(5), Bin("mul", Bin("add", C(3), X), Y)),
+                                            Bin("add", C(-3), Bin("add", Bin("mul", Q(1, 2), Bin("pow", X, C(2))), Z))}}
 
 FactorOut ==
   \* p u^e + q u^e  ->  (p' + q') * k u^e
